@@ -1044,5 +1044,7 @@ def _run_rest(chk, fx):
 
     from verif import fallthrough
     fallthrough.run(chk, "C07", floor=6)
+    from verif import argorder
+    argorder.run(chk, "C07", floor=28)
 
     chk.assumptions += ["tables/ecl_layout.json: published Eclipse file-format constants"]
